@@ -286,7 +286,8 @@ func ReplayHistory(tw *TraceWriter, id int, h []Action) {
 				rawstatus, rawtext, obsBody = "skip", "", []*Node{}
 			}
 			c15f := fileCommentFacts(rA, h[0])
-			tw.Emit(Rec{"ev": "Render", "c01": c01, "c15f": c15f, "status": rA.status, "rawstatus": rawstatus, "specs": specs, "refs": refs, "bare": bare,
+			c15r := fileCommentFacts(rB, h[0]) // the NoFormat twin must place the comments right as well
+			tw.Emit(Rec{"ev": "Render", "c01": c01, "c15f": c15f, "c15r": c15r, "status": rA.status, "rawstatus": rawstatus, "specs": specs, "refs": refs, "bare": bare,
 				"raw": rawtext, "out": Hash(rA.out), "table": tableOf(fB), "parses": parses, "body": obsBody,
 				"fmteq": rA.status == "nil" && fmok && bytes.Equal(fm, rA.out), "fmtok": fmok})
 			names := map[string]int{}
